@@ -1,8 +1,7 @@
 /-
 C12 helper lemmas: the item stream of `Display` reads back, by the documented grouping rules, as the
-tree it was printed from — provided every parenthesis those rules need is printed (`noDefect`).
-Adapted from the design-phase probe (minimal-parenthesis printer) to "any superset of the needed
-parentheses", which is what `impl Display for Exp` prints outside its defective shapes.
+tree it was printed from (`Exp::operand_to_string` parenthesises exactly where those rules need it).
+Adapted from the design-phase probe (minimal-parenthesis printer).
 -/
 import Rooc.DisplayItems
 namespace Rooc.Display
@@ -30,7 +29,7 @@ def stopsAfter (t : Exp α) : List (Item α) → Prop
   | [] => True
   | .infix q :: _ => match t with | .bin o _ _ => lbp q ≤ rbp o | _ => True
   | .atom _ :: _ => False
-  | .group _ _ :: _ => False
+  | .group _ :: _ => False
 
 /-- the next item, if any, is an operator -/
 def OpNext : List (Item α) → Prop
@@ -45,7 +44,7 @@ theorem stopLoop {r : Nat} {t : Exp α} {rest : List (Item α)} (h : OpNext rest
   | cons i tl =>
     cases i with
     | atom e => exact absurd h (by simp [OpNext])
-    | group c e => exact absurd h (by simp [OpNext])
+    | group e => exact absurd h (by simp [OpNext])
     | «infix» q => exact .stopOp (hr q tl rfl)
 
 theorem stopsAfter_noLeaf {t : Exp α} {rest : List (Item α)} (h : stopsAfter t rest) : OpNext rest := by
@@ -53,127 +52,48 @@ theorem stopsAfter_noLeaf {t : Exp α} {rest : List (Item α)} (h : stopsAfter t
   | nil => trivial
   | cons i tl => cases i <;> simp_all [stopsAfter, OpNext]
 
+/-- the rule the rendering applies is exactly "the grouping rules need parentheses here" -/
+theorem parensRule_eq_needSide (parent : BinOp) (isRhs : Bool) (o : BinOp) (l r : Exp α) :
+    parensRule parent isRhs o = needSide parent isRhs (.bin o l r) := by
+  cases parent <;> cases isRhs <;> cases o <;> rfl
+
 /-- an expression that is not a `BinOp` is one leaf item -/
-theorem items_nonbin (ctx : Option BinOp) (e : Exp α) (h : ∀ o l r, e ≠ .bin o l r) :
+theorem items_nonbin (ctx : Option (BinOp × Bool)) (e : Exp α) (h : ∀ o l r, e ≠ .bin o l r) :
     items ctx e = [.atom e] := by
   cases e <;> first | rfl | exact absurd rfl (h _ _ _)
 
 /-- the shapes `items` gives a `BinOp` node -/
-theorem items_bin (ctx : Option BinOp) (o : BinOp) (l r : Exp α) :
-    items ctx (.bin o l r) = [.group none (.bin o l r)] ∨
-    items ctx (.bin o l r) = items (some o) l ++ [.infix o] ++ [.group (some o) r] ∨
-    items ctx (.bin o l r) = items (some o) l ++ [.infix o] ++ items (some o) r := by
+theorem items_bin (ctx : Option (BinOp × Bool)) (o : BinOp) (l r : Exp α) :
+    items ctx (.bin o l r) = [.group (.bin o l r)] ∨
+    items ctx (.bin o l r) = items (some (o, false)) l ++ [.infix o] ++ items (some (o, true)) r := by
   cases ctx with
-  | none => right; right; simp [items]
-  | some last =>
-    by_cases hp : Gen.binPrec o < Gen.binPrec last
-    · left; simp [items, hp]
-    · right
-      by_cases hl : isLeaf r = true
-      · right; cases last <;> simp [items, hp, hl]
-      · cases last <;> simp [items, hp, hl]
+  | none => right; simp [items]
+  | some p =>
+    obtain ⟨parent, isRhs⟩ := p
+    by_cases h : parensRule parent isRhs o = true
+    · left; simp only [items, h, if_true]
+    · right; simp [items, h]
 
-/-- a parenthesised (`placed`) operand is one leaf item -/
-theorem items_placed (p : BinOp) (e : Exp α) (h : placed p e = true) : items (some p) e = [.group none e] := by
-  cases e with
-  | bin o l r => simp [placed] at h; simp [items, h]
-  | _ => simp [placed] at h
+theorem items_group_of_need (parent : BinOp) (isRhs : Bool) (o : BinOp) (l r : Exp α)
+    (h : needSide parent isRhs (.bin o l r) = true) :
+    items (some (parent, isRhs)) (.bin o l r) = [.group (.bin o l r)] := by
+  rw [← parensRule_eq_needSide] at h
+  simp only [items, h, if_true]
 
-theorem core (n : Nat) : ∀ (t : Exp α), skel t ≤ n → ∀ (ctx : Option BinOp) (r : Nat) (rest : List (Item α))
+/-- The item stream of the rendering reads back, by the grouping rules, as the printed tree. -/
+theorem core (n : Nat) : ∀ (t : Exp α), skel t ≤ n → ∀ (ctx : Option (BinOp × Bool)) (r : Nat) (rest : List (Item α))
     (t' : Exp α) (rest' : List (Item α)),
-    noDefect t = true → ((∃ it, items ctx t = [it] ∧ it.tree? = some t) ∨ (topFits r t ∧ stopsAfter t rest)) →
+    ((∃ it, items ctx t = [it] ∧ it.tree? = some t) ∨ (topFits r t ∧ stopsAfter t rest)) →
     PLoop r t rest t' rest' → PExpr r (items ctx t ++ rest) t' rest' := by
   induction n with
   | zero =>
-    intro t hs ctx r rest t' rest' hnd hc hl
+    intro t hs ctx r rest t' rest' hc hl
     have : items ctx t = [.atom t] := by
       cases t with
       | bin o l r => simp [skel] at hs
       | _ => rfl
     rw [this]; exact .mk rfl hl
   | succ n ih =>
-    intro t hs ctx r rest t' rest' hnd hc hl
-    rcases hc with ⟨it, hleaf, htree⟩ | ⟨hfit, hstop⟩
-    · rw [hleaf]; exact .mk htree hl
-    · cases t with
-      | bin o l r' =>
-        simp only [skel] at hs
-        simp only [noDefect, Bool.and_eq_true, Bool.or_eq_true, Bool.not_eq_true'] at hnd
-        obtain ⟨⟨⟨hL, hR⟩, hndl⟩, hndr⟩ := hnd
-        simp only [topFits] at hfit
-        -- the pending loops can stop after the right operand
-        have hstopR : ∀ q tl, rest = .infix q :: tl → ¬ rbp o < lbp q := by
-          intro q tl hq; subst hq; simp [stopsAfter] at hstop; omega
-        -- left operand, given the parse of the rest
-        have left : ∀ (R : List (Item α)), PExpr (rbp o) (R ++ rest) r' rest →
-            PExpr r (items (some o) l ++ [.infix o] ++ R ++ rest) t' rest' := by
-          intro R hRp
-          have hstep : PLoop r l (.infix o :: (R ++ rest)) t' rest' := .step hfit hRp hl
-          have := ih l (by omega) (some o) r (.infix o :: (R ++ rest)) t' rest' hndl ?_ hstep
-          · simpa [List.append_assoc] using this
-          · cases l with
-            | bin o1 a b =>
-              rcases hL with hL | hL
-              · right
-                simp [needLeft] at hL
-                have := rbp_le o1
-                exact ⟨by simp [topFits]; omega, by simpa [stopsAfter] using hL⟩
-              · left; exact ⟨_, items_placed o _ hL, rfl⟩
-            | _ => left; exact ⟨_, rfl, rfl⟩
-        -- the loop of the right operand stops at `rest`
-        have hloopR : PLoop (rbp o) r' rest r' rest := stopLoop (stopsAfter_noLeaf hstop) hstopR
-        rcases items_bin ctx o l r' with h | h | h
-        · rw [h]; exact .mk rfl hl
-        · rw [h]; exact left _ (.mk rfl hloopR)
-        · rw [h]
-          refine left _ ?_
-          refine ih r' (by omega) (some o) (rbp o) rest r' rest hndr ?_ hloopR
-          cases r' with
-          | bin o2 a b =>
-            rcases hR with hR | hR
-            · right
-              simp [needRight] at hR
-              refine ⟨by simpa [topFits] using hR, ?_⟩
-              cases rest with
-              | nil => trivial
-              | cons i tl =>
-                cases i with
-                | atom e => exact absurd (stopsAfter_noLeaf hstop) (by simp [OpNext])
-                | group c e => exact absurd (stopsAfter_noLeaf hstop) (by simp [OpNext])
-                | «infix» q =>
-                  have hq := hstopR q tl rfl
-                  simp only [stopsAfter]
-                  have := rbp_ge o2; omega
-            · left; exact ⟨_, items_placed o _ hR, rfl⟩
-          | _ => left; exact ⟨_, rfl, rfl⟩
-      | _ => exact .mk rfl hl
-
-/-! ### the repaired rule reads back for every tree -/
-
-theorem itemsFixed_bin (ctx : Option (BinOp × Bool)) (o : BinOp) (l r : Exp α) :
-    itemsFixed ctx (.bin o l r) = [.group none (.bin o l r)] ∨
-    itemsFixed ctx (.bin o l r) = itemsFixed (some (o, false)) l ++ [.infix o] ++ itemsFixed (some (o, true)) r := by
-  cases ctx with
-  | none => right; simp [itemsFixed]
-  | some p =>
-    obtain ⟨parent, isRhs⟩ := p
-    by_cases h : needSide parent isRhs (.bin o l r) = true
-    · left; simp only [itemsFixed, h, if_true]
-    · right; simp [itemsFixed, h]
-
-theorem coreFixed (n : Nat) : ∀ (t : Exp α), skel t ≤ n → ∀ (ctx : Option (BinOp × Bool)) (r : Nat) (rest : List (Item α))
-    (t' : Exp α) (rest' : List (Item α)),
-    ((∃ it, itemsFixed ctx t = [it] ∧ it.tree? = some t) ∨ (topFits r t ∧ stopsAfter t rest)) →
-    PLoop r t rest t' rest' → PExpr r (itemsFixed ctx t ++ rest) t' rest' := by
-  induction n with
-  | zero =>
-    intro t hs ctx r rest t' rest' hc hl
-    have : itemsFixed ctx t = [.atom t] := by
-      cases t with
-      | bin o l r => simp [skel] at hs
-      | _ => rfl
-    rw [this]; exact .mk rfl hl
-  | succ n ih =>
     intro t hs ctx r rest t' rest' hc hl
     rcases hc with ⟨it, hleaf, htree⟩ | ⟨hfit, hstop⟩
     · rw [hleaf]; exact .mk htree hl
@@ -184,16 +104,16 @@ theorem coreFixed (n : Nat) : ∀ (t : Exp α), skel t ≤ n → ∀ (ctx : Opti
         have hstopR : ∀ q tl, rest = .infix q :: tl → ¬ rbp o < lbp q := by
           intro q tl hq; subst hq; simp [stopsAfter] at hstop; omega
         have hloopR : PLoop (rbp o) r' rest r' rest := stopLoop (stopsAfter_noLeaf hstop) hstopR
-        rcases itemsFixed_bin ctx o l r' with h | h
+        rcases items_bin ctx o l r' with h | h
         · rw [h]; exact .mk rfl hl
         · rw [h]
           -- right operand
-          have hRp : PExpr (rbp o) (itemsFixed (some (o, true)) r' ++ rest) r' rest := by
+          have hRp : PExpr (rbp o) (items (some (o, true)) r' ++ rest) r' rest := by
             refine ih r' (by omega) (some (o, true)) (rbp o) rest r' rest ?_ hloopR
             cases r' with
             | bin o2 a b =>
               by_cases hneed : needRight o (.bin o2 a b) = true
-              · left; exact ⟨.group none (.bin o2 a b), by simp only [itemsFixed, needSide, hneed, if_true], rfl⟩
+              · left; exact ⟨_, items_group_of_need o true o2 a b (by simpa [needSide] using hneed), rfl⟩
               · right
                 simp [needRight] at hneed
                 refine ⟨by simpa [topFits] using hneed, ?_⟩
@@ -202,19 +122,19 @@ theorem coreFixed (n : Nat) : ∀ (t : Exp α), skel t ≤ n → ∀ (ctx : Opti
                 | cons i tl =>
                   cases i with
                   | atom e => exact absurd (stopsAfter_noLeaf hstop) (by simp [OpNext])
-                  | group c e => exact absurd (stopsAfter_noLeaf hstop) (by simp [OpNext])
+                  | group e => exact absurd (stopsAfter_noLeaf hstop) (by simp [OpNext])
                   | «infix» q =>
                     have hq := hstopR q tl rfl
                     simp only [stopsAfter]
                     have := rbp_ge o2; omega
             | _ => left; exact ⟨_, rfl, rfl⟩
-          have hstep : PLoop r l (.infix o :: (itemsFixed (some (o, true)) r' ++ rest)) t' rest' := .step hfit hRp hl
-          have := ih l (by omega) (some (o, false)) r (.infix o :: (itemsFixed (some (o, true)) r' ++ rest)) t' rest' ?_ hstep
+          have hstep : PLoop r l (.infix o :: (items (some (o, true)) r' ++ rest)) t' rest' := .step hfit hRp hl
+          have := ih l (by omega) (some (o, false)) r (.infix o :: (items (some (o, true)) r' ++ rest)) t' rest' ?_ hstep
           · simpa [List.append_assoc] using this
           · cases l with
             | bin o1 a b =>
               by_cases hneed : needLeft o (.bin o1 a b) = true
-              · left; exact ⟨.group none (.bin o1 a b), by simp [itemsFixed, needSide, hneed], rfl⟩
+              · left; exact ⟨_, items_group_of_need o false o1 a b (by simpa [needSide] using hneed), rfl⟩
               · right
                 simp [needLeft] at hneed
                 have := rbp_le o1
